@@ -1077,9 +1077,20 @@ impl Scaler for HarfBuzzScaler<'_> {
             .contours
             .get_mut(contours_start..contours_end)
             .ok_or(InsufficientMemory)?;
-        // Read the contour end points.
+        // Read the contour end points, ensuring that they are properly
+        // ordered. This bounds them by the point count, so shifting them
+        // below for a component can't overflow.
+        let mut last_end_pt = 0;
         for (end_pt, contour) in contour_end_pts.iter().zip(contours.iter_mut()) {
-            *contour = end_pt.get();
+            let end_pt = end_pt.get();
+            if end_pt < last_end_pt {
+                return Err(ReadError::MalformedData(
+                    "unordered contour end points in TrueType glyph",
+                )
+                .into());
+            }
+            last_end_pt = end_pt;
+            *contour = end_pt;
         }
         // Adjust the running point/contour total counts
         self.point_count += point_count;
